@@ -79,12 +79,16 @@ def cases(draw, tier):
         # {both axes, real permutations, metadata pattern} too rarely)
         pat = draw(st.sampled_from(["both", "obs-only", "samp-only", "none"]))
     if pat != "as-drawn":
-        spec["obs_md"] = [{"k": "ov%d" % i, "grp": "g%d" % (i % 2)}
+        spec["obs_md"] = [{"k": "ov%d" % i, "grp": "g%d" % (i % 2),
+                           "lin": ["k__a", ["nested", "p__%d" % i]]}
                           for i in range(len(spec["obs"]))] \
             if pat in ("both", "obs-only") else None
-        spec["samp_md"] = [{"k": "sv%d" % i, "n": i % 3}
+        spec["samp_md"] = [{"k": "sv%d" % i, "n": i % 3,
+                            "latlon": [48.5 + i, 11.25]}
                            for i in range(len(spec["samp"]))] \
             if pat in ("both", "samp-only") else None
+    # list-valued metadata handed over as tuples
+    spec["md_tuples"] = draw(st.sampled_from([False, False, True]))
     op = draw(OPS)
     if two_axes:
         op = {"kind": "align_to", "axis": draw(st.sampled_from(["both",
@@ -159,6 +163,20 @@ def _relational_(before, after, obs_map, samp_map, what):
                                 "original value of (%r,%r) is %r" %
                                 (what, o, s, after["rows"][i][j], obs_map[o],
                                  samp_map[s], want))
+    # ... with its tuples still tuples and its lists still lists
+    for name, ids, mp, ak, bk, old in (
+            ("observation", after["obs"], obs_map, after.get("obs_mdk"),
+             before.get("obs_mdk"), b.obs),
+            ("sample", after["samp"], samp_map, after.get("samp_mdk"),
+             before.get("samp_mdk"), b.samp)):
+        if ak is None or bk is None:
+            continue
+        for k, i in enumerate(ids):
+            want = bk[old.index(mp[i])]
+            if (ak[k] or None) != (want or None):
+                raise Violation("metadata-value-kind", "%s: the metadata of "
+                                "%s id %r has containers %r, they were %r" %
+                                (what, name, i, ak[k], want))
     for name, ids, mp, amd, bmd, old in (
             ("observation", after["obs"], obs_map, after["obs_md"], b.obs_md,
              b.obs),
@@ -448,6 +466,44 @@ def _align(case, op, t, before, ref, rec):
     _unchanged(t, before, "align_to", r)
     if observe.snapshot(other) != other_before:
         raise Violation("argument-changed", "align_to changed `other`")
+    # asked again after both tables' IDs were renamed in place: whether
+    # two tables can be aligned is a question about the IDs they hold now
+    a = gen.build(case["table"])
+    a.align_to(other, axis=axis)
+    for ax_, key_ in (("observation", "obs"), ("sample", "samp")):
+        a.update_ids({i: i + "~" for i in before[key_]}, axis=ax_,
+                     inplace=True)
+        other.update_ids({i: i + "~" for i in other_before[key_]}, axis=ax_,
+                         inplace=True)
+    try:
+        again = observe.snapshot(a.align_to(other, axis=axis))
+    except DisjointIDError as e:
+        raise Violation("stale-result", "align_to(%r) after both tables' "
+                        "IDs were renamed in place (same sets as before, "
+                        "renamed) is refused: %s" % (axis, e))
+    if again["obs"] != [i + "~" for i in want_o] or \
+            again["samp"] != [i + "~" for i in want_s] or \
+            again["rows"] != after["rows"]:
+        raise Violation("stale-result", "align_to(%r) again after both "
+                        "tables' IDs were renamed in place gives %r / %r, "
+                        "expected %r / %r renamed" %
+                        (axis, again["obs"], again["samp"], want_o, want_s))
+    # ... and when only one of the two was renamed, they no longer hold
+    # the same IDs on any axis
+    a = gen.build(case["table"])
+    fresh_other = Table(gen.encode(rows, "dense")[0], o_ids, s_ids)
+    a.align_to(fresh_other, axis=axis)
+    for ax_, key_ in (("observation", "obs"), ("sample", "samp")):
+        a.update_ids({i: i + "~" for i in before[key_]}, axis=ax_,
+                     inplace=True)
+    try:
+        a.align_to(fresh_other, axis=axis)
+    except DisjointIDError:
+        pass
+    else:
+        raise Violation("stale-result", "align_to(%r) is accepted although "
+                        "the receiver's IDs were renamed in place and no "
+                        "longer match on any axis" % axis)
     rec.nt((al_o and want_o != before["obs"] and
             _distinct_vectors(ref, "observation")) or
            (al_s and want_s != before["samp"] and
